@@ -26,7 +26,7 @@ META = {
     'shards': {'quick': 8, 'thorough': 16},
     'quotas_fixed': ['x-delete', 'x-truncate'],
     'quotas': {
-        'quick': {'mutation:exotic-char:erroneous': 80, 'class:include-with-directory-part-and-wellformed-decoy': 50, 'label:erroneous': 1000, 'erroneous:lexer-error': 100, 'erroneous:parser-error': 1000,
+        'quick': {'class:include-chain-of-17-or-more-files': 60, 'class:same-compiler-object-asked-12-times': 30, 'class:another-directory-with-the-same-file-names-loaded-first': 4, 'mutation:exotic-char:erroneous': 80, 'class:include-with-directory-part-and-wellformed-decoy': 50, 'label:erroneous': 1000, 'erroneous:lexer-error': 100, 'erroneous:parser-error': 1000,
                   'erroneous-in-included-file': 100, 'erroneous:raised': 1000, 'x-delete': 70, 'x-truncate': 70,
                   'via-from_mal_spec': 100, 'erroneous:compiled-twice': 300},
         'thorough': {'label:erroneous': 200000, 'erroneous:lexer-error': 10000, 'erroneous:parser-error': 100000,
@@ -49,7 +49,7 @@ def run_program(files, root, via_graph=False, repeat=0):
             with open(os.path.join(d, n), 'w', encoding='utf-8', newline='') as f:
                 f.write(t)
         outcome = None
-        shared = MalCompiler() if (len(files) + len(root)) % 2 == 0 else None
+        shared = MalCompiler() if (len(files) + len(root)) % 2 == 0 or repeat > 3 else None
         for attempt in range(1 + max(0, repeat)):
             # the same path compiled again (a new compiler object, or the same one) must give the same verdict
             try:
@@ -72,14 +72,19 @@ def run_program(files, root, via_graph=False, repeat=0):
         shutil.rmtree(d, ignore_errors=True)
 
 
-def check_program(files, root, mclass, where, res, via_graph=False, count=True):
+def check_program(files, root, mclass, where, res, via_graph=False, count=True, many=False):
     label, detail = malfuzz.label_program(files, root)
     if count:
         res.count('label:' + label)
         res.count('mutation:%s:%s' % (mclass, label))
     if label == 'unreadable':
         return None, label
-    outcome, exc = run_program(files, root, via_graph, repeat=1 if (label == 'erroneous' and hash(mclass) % 3 == 0 or mclass in ('x-delete', 'delete', 'swap')) else 0)
+    repeat = 1 if (label == 'erroneous' and hash(mclass) % 3 == 0 or mclass in ('x-delete', 'delete', 'swap')) else 0
+    if label == 'erroneous' and many:
+        repeat = 11          # the same compiler object is asked again and again
+        if count:
+            res.count('class:same-compiler-object-asked-12-times')
+    outcome, exc = run_program(files, root, via_graph, repeat=repeat)
     if count and label == 'erroneous' and (mclass in ('x-delete', 'delete', 'swap')):
         res.count('erroneous:compiled-twice')
     if count and via_graph:
@@ -123,6 +128,23 @@ def run(rng, res, tier, shard, nshards):
     reach.add('MalCompiler.compile', MalCompiler.compile)
     reach.start()
     corpus = base_programs(rng, tier)
+    # a well-formed program called main.mal (with an include part1.mal) in another directory is loaded first, through
+    # LanguageGraph.from_mal_spec and through MalCompiler, and stays on disk for the whole run
+    from maltoolbox.language import LanguageGraph
+    keep_dir = tempfile.mkdtemp(prefix='c17-first-', dir=os.getcwd())
+    with open(os.path.join(keep_dir, 'main.mal'), 'w', encoding='utf-8') as f:
+        f.write('include "part1.mal"\n' + corpus[1][0]['main.mal'])
+    with open(os.path.join(keep_dir, 'part1.mal'), 'w', encoding='utf-8') as f:
+        f.write('category Elsewhere { asset ElsewhereOnly { | reach } }\n')
+    for nm in ('part2.mal', 'part3.mal', 'p1.mal', 'p2.mal', 'c1.mal', 'chain-main.mal'):
+        with open(os.path.join(keep_dir, nm), 'w', encoding='utf-8') as f:
+            f.write('category Elsewhere { asset Elsewhere%s { | reach } }\n' % nm.split('.')[0].replace('-', ''))
+    try:
+        LanguageGraph.from_mal_spec(os.path.join(keep_dir, 'main.mal'))
+        MalCompiler().compile(os.path.join(keep_dir, 'main.mal'))
+        res.count('class:another-directory-with-the-same-file-names-loaded-first')
+    except Exception as exc:
+        res.inconc('the first program did not load: %r' % (exc,))
     # the unmutated corpus must be valid for the grammar and compile
     for files, root in corpus:
         label, _ = malfuzz.label_program(files, root)
@@ -182,17 +204,29 @@ def run(rng, res, tier, shard, nshards):
                     f2[n2] = f2[n2].replace(stmt, 'include "%s/%s"' % (sub, where))
                 f2['%s/%s' % (sub, where)] = files[where]
                 res.count('class:include-with-directory-part-and-wellformed-decoy')
+        if rng.random() < 0.06:
+            # a long include chain above the program: main -> c1 -> ... -> c<k> -> the program's root
+            k = rng.choice([17, 18, 20, 25, 33])
+            f2['c%d.mal' % k] = 'include "%s"\n' % root
+            for j in range(k - 1, 0, -1):
+                f2['c%d.mal' % j] = 'include "c%d.mal"\n' % (j + 1)
+            f2['chain-main.mal'] = 'include "c1.mal"\n'
+            root2 = 'chain-main.mal'
+            res.count('class:include-chain-of-17-or-more-files')
+        else:
+            root2 = root
         via = rng.random() < 0.1
-        first, label = check_program(f2, root, mclass.split('+')[0], where, res, via_graph=via)
+        first, label = check_program(f2, root2, mclass.split('+')[0], where, res, via_graph=via, many=rng.random() < 0.04)
         res.case(digest(f2) if label == 'erroneous' else None)
         if len(res.samples) < 3 and label == 'erroneous':
             res.sample({'mutation': mclass, 'in_file': where, 'files': {n: t[:400] for n, t in f2.items()}})
         if first:
-            res.violation(first[0], first[1], {'files': f2, 'root': root, 'mutation': mclass, 'via_graph': via})
+            res.violation(first[0], first[1], {'files': f2, 'root': root2, 'mutation': mclass, 'via_graph': via})
     if budget.timed_out():
         res.notes['time-cap-hit'] = True
     reach.stop()
     res.reach = dict(reach.counts)
+    shutil.rmtree(keep_dir, ignore_errors=True)
 
 
 def replay(case, res):
